@@ -196,7 +196,7 @@ let commands : (string * (string -> string)) list = [
   "accept_c14", cmd_accept_c14;
   "walkey", cmd_walkey;
   "engine", cmd_engine;
-] @ Cmd_crash.commands @ Cmd_frame.commands @ Cmd_meta.commands @ Cmd_raft.commands @ Cmd_hdr.commands @ Cmd_durable.commands @ Cmd_clean.commands @ Cmd_trk.commands @ Cmd_cluster.commands
+] @ Cmd_crash.commands @ Cmd_frame.commands @ Cmd_meta.commands @ Cmd_raft.commands @ Cmd_hdr.commands @ Cmd_durable.commands @ Cmd_clean.commands @ Cmd_trk.commands @ Cmd_cluster.commands @ Cmd_conc.commands
 
 let () =
   let cmd = Sys.argv.(1) in
